@@ -6,7 +6,7 @@ case (kind "hist") = {
   "datasets": [{"name", "tpos", "feats": null|[col positions], "rows": [[cells]], "labels": null|"RRE.."}],
   "strategies": [{"name", "p"}],
   "cv": {"kind": "kfold", "k", "shuffle", "rs"} | {"kind": "single", "t", "shuffle", "rs"} | {"kind": "presplit", "k": null|int},
-  "runs": [{"owP", "owF", "saveF", "pot", "fail": null|k, "fresh": bool}]}
+  "runs": [{"owP", "owF", "saveF", "pot", "fail": null|k, "fresh": bool, "ns": optional number of strategies (a prefix) used by this run}]}
 case (kind "init") = {"kind": "init", "ntasks", "ndatasets", "names": [...]}
 
 A run = a new Orchestrator (new datasets, tasks, strategies, cv objects: a new process) over a new results object on the
@@ -224,7 +224,12 @@ def _nfolds(c):
     return max([len(_folds(c, d)) for d in c["datasets"]] or [0])
 
 
-def _build(c):
+def _ns(c, run):
+    ns = run.get("ns")
+    return len(c["strategies"]) if ns is None else ns
+
+
+def _build(c, run=None):
     from sktime.benchmarking.data import RAMDataset
     from sktime.benchmarking.tasks import TSCTask, TSRTask
     from sktime.benchmarking.strategies import TSCStrategy, TSRStrategy
@@ -236,7 +241,7 @@ def _build(c):
         datasets.append(RAMDataset(df, d["name"]))
         tasks.append((TSCTask if ncls else TSRTask)(target="target", features=feats))
     strategies = []
-    for s in c["strategies"]:
+    for s in (c["strategies"] if run is None else c["strategies"][:_ns(c, run)]):
         est = (Cl if ncls else Rg)(p=s["p"], ncls=ncls, labels=c["labels"])
         strategies.append((TSCStrategy if ncls else TSRStrategy)(est, name=s["name"]))
     return tasks, datasets, strategies, _cv_object(c)
@@ -381,7 +386,7 @@ def run_real(c):
         prev_recs, prev_strats = {}, {}
         nfolds = _nfolds(c)
         for i, run in enumerate(c["runs"]):
-            tasks, datasets, strategies, cv = _build(c)
+            tasks, datasets, strategies, cv = _build(c, run)
             if res is None or run["fresh"]:
                 res = HDDResults(path) if hdd else RAMResults()
                 if not hdd:
@@ -448,8 +453,8 @@ def to_line(c):
         cvs = "presplit:%s" % ("none" if cv["k"] is None else cv["k"])
     else:  # library randomness: the folds are data for the model
         cvs = "given:" + ";".join(_join(["%s>%s" % (_ints(a), _ints(b)) for a, b in _folds(c, d)], "|") for d in c["datasets"])
-    runs = ["%s%s%s%s:%s:%s" % (show_bool(r["owP"]), show_bool(r["owF"]), show_bool(r["saveF"]), show_bool(r["pot"]),
-                                "none" if r["fail"] is None else r["fail"], show_bool(r["fresh"])) for r in c["runs"]]
+    runs = ["%s%s%s%s:%s:%s:%d" % (show_bool(r["owP"]), show_bool(r["owF"]), show_bool(r["saveF"]), show_bool(r["pot"]),
+                                   "none" if r["fail"] is None else r["fail"], show_bool(r["fresh"]), _ns(c, r)) for r in c["runs"]]
     lrn = "cls:%d" % c["learner"][1] if c["learner"][0] == "cls" else "reg"
     return "C19 hist %s %s %s %s %s %s" % (c["store"], lrn, _join(dss, ";"), _join(sts, ";"), cvs, _join(runs, ";"))
 
@@ -544,22 +549,23 @@ def oracle(c, out):
     d = _parse(out)
     hdd = c["store"] == "hdd"
     hon_recs, hon_w, sig = _honest(c)
-    items = [(s["name"], dd["name"], f) for dd in c["datasets"] for s in c["strategies"] for f in range(len(_folds(c, dd)))]
+    all_items = [(s["name"], dd["name"], f) for dd in c["datasets"] for s in c["strategies"] for f in range(len(_folds(c, dd)))]
     key2item = {}
     collide = False
-    for (s, dn, f) in items:
+    for (s, dn, f) in all_items:
         for part in ("train", "test"):
             k = _key_str(c, s, dn, f, part)
             if k in key2item:
                 collide = True
             key2item.setdefault(k, []).append((s, dn, f, part))
-    all_s = sorted(s["name"] for s in c["strategies"])
-    all_d = sorted(dd["name"] for dd in c["datasets"])
+    prev_master, prev_reg = "none", "-+-"
     requested_ever = set()   # (s, d, f, part) requested by some run so far
     strat_ever = False
     prev_recs, prev_strats = {}, {}
     some_fresh_resume = False
     for i, run in enumerate(c["runs"]):
+        names_i = [s["name"] for s in c["strategies"][:_ns(c, run)]]
+        items = [it for it in all_items if it[0] in names_i]
         outcome = d.get("r%d.out" % i)
         if outcome is None:
             fails.append(("harness:missing-run", "no output for run %d" % i)); break
@@ -601,7 +607,7 @@ def oracle(c, out):
                     key = "HDDResults.save_predictions:numeric-string-labels-read-back-as-numbers"
                 fails.append((key, "run %d: record %s = %s, honest fit/predict gives %s" % (i, k, content, hon_recs[its[0]])))
         for k, w in strats.items():
-            its = [(s, dn, f) for (s, dn, f) in items if _key_str(c, s, dn, f, "train") == k]
+            its = [(s, dn, f) for (s, dn, f) in all_items if _key_str(c, s, dn, f, "train") == k]
             if len(its) != 1:
                 fails.append((site + ":strategy-under-unknown-key", "run %d: saved strategy %s" % (i, k))); continue
             if not strat_ever:
@@ -661,19 +667,28 @@ def oracle(c, out):
                 fails.append((site + ":not-exactly-the-missing-written", "run %d: written %r, expected %r" % (i, sorted(wr), sorted(exp_wr))))
             # ---- registry and master file name everything that is stored; load_predictions reads back what was stored
             reg = d.get("r%d.reg" % i)
-            want = "%s+%s" % (",".join(all_s), ",".join(all_d))
+            # the registry must name every strategy and dataset that has something stored
+            stored = [it4 for k in recs for it4 in key2item.get(k, [])]
+            all_s = sorted(set(x[0] for x in stored)); all_d = sorted(set(x[1] for x in stored))
+            want = "%s+%s" % (_join(all_s, ","), _join(all_d, ","))
             wrote_names = set()
             for w_ in wr:
                 k = w_.split(":", 1)[1]
                 for (s, dn, f, part) in key2item.get(k, []):
                     wrote_names.add(s); wrote_names.add(dn)
+            def names_of(observed):
+                if observed in (None, "none"):
+                    return set()
+                a, b = observed.split("+")
+                return (set(a.split(",")) | set(b.split(","))) - {"-"}
             def reg_key(observed):
-                got = set()
-                if observed not in (None, "none"):
-                    a, b = observed.split("+")
-                    got = set(a.split(",")) | set(b.split(","))
+                got = names_of(observed)
                 missing = (set(all_s) | set(all_d)) - got
-                if hdd and some_fresh_resume and missing and not (missing & wrote_names):
+                extra = got - (set(all_s) | set(all_d))
+                # the known defect: names of work that was complete before a crash were never persisted (not in
+                # the master file, not in the live registry) and nothing was saved for them in this run
+                known_before = names_of(prev_master) | (set() if run["fresh"] else names_of(prev_reg))
+                if hdd and some_fresh_resume and missing and not extra and not (missing & (wrote_names | known_before)):
                     return "registry:names-of-skipped-work-missing-after-new-results-object"
                 return "registry:mismatch"
             if items:
@@ -686,7 +701,7 @@ def oracle(c, out):
                 for f in range(_nfolds(c)):
                     for part in ("train", "test"):
                         pairs = [(s, dn) for s in all_s for dn in all_d]
-                        if not all(_key_str(c, s, dn, f, part) in recs for (s, dn) in pairs):
+                        if not pairs or not all(_key_str(c, s, dn, f, part) in recs for (s, dn) in pairs):
                             continue
                         exp = sorted("%s~%s~%s" % (s, dn, recs[_key_str(c, s, dn, f, part)].replace("@", "~")) for (s, dn) in pairs)
                         got = loads.get("%d%s" % (f, part))
@@ -698,6 +713,7 @@ def oracle(c, out):
                                 k = "HDDResults.load_predictions:numeric-string-labels-read-back-as-numbers"
                             fails.append((k, "run %d: load_predictions(%d, %s) = %s, stored %s" % (i, f, part, got, "&".join(exp))))
         prev_recs, prev_strats = recs, strats
+        prev_master, prev_reg = d.get("r%d.master" % i, "none"), d.get("r%d.reg" % i, "-+-")
     # dedupe by key keeping first
     seen, res = set(), []
     for k, m in fails:
@@ -755,8 +771,11 @@ def _dataset(rng, name, n, ncols, ncls, presplit=False, explicit=None):
     return {"name": name, "tpos": tpos, "feats": feats, "rows": _mk_rows(rng, n, ncols, tpos, ncls), "labels": labels}
 
 
-def _opts(owP=False, owF=False, saveF=True, pot=False, fail=None, fresh=True):
-    return {"owP": owP, "owF": owF, "saveF": saveF, "pot": pot, "fail": fail, "fresh": fresh}
+def _opts(owP=False, owF=False, saveF=True, pot=False, fail=None, fresh=True, ns=None):
+    r = {"owP": owP, "owF": owF, "saveF": saveF, "pot": pot, "fail": fail, "fresh": fresh}
+    if ns is not None:
+        r["ns"] = ns
+    return r
 
 
 def _ncalls(c, pot):
@@ -818,6 +837,14 @@ def _exhaustive(rng, tier):
                     if saveF:
                         runs.append(_opts(owF=True, saveF=True, pot=pot, fresh=rng.random() < 0.5))
                     cases.append(dict(cfg, kind="hist", runs=runs))
+        # a benchmark that grows: first run with one strategy, later runs add the others (master file is merged)
+        if len(cfg["strategies"]) > 1:
+            for saveF in (True, False):
+                for fresh in (True, False):
+                    for k in (None, 2, 3):
+                        runs = [_opts(saveF=saveF, fail=None, ns=1), _opts(saveF=saveF, fail=k, fresh=fresh),
+                                _opts(saveF=saveF, fresh=True), _opts(saveF=saveF, fresh=True, ns=1)]
+                        cases.append(dict(cfg, kind="hist", runs=runs))
         # RAM: every failure point; nothing survives a new results object, nothing is skipped
         ram = dict(cfg, store="ram")
         total = _ncalls(ram, True)
@@ -866,6 +893,11 @@ def _random_case(rng):
         total = _ncalls(c, pot)
         fail = rng.randrange(1, total + 3) if rng.random() < 0.45 else None
         runs.append(_opts(owP=owP, owF=owF, saveF=saveF, pot=pot, fail=fail, fresh=(i == 0) or rng.random() < 0.6))
+    if ns > 1 and rng.random() < 0.3:      # growing benchmark
+        cur = 1
+        for r in runs:
+            r["ns"] = cur
+            cur = min(ns, cur + rng.choice([0, 1, 1]))
     c["runs"] = runs
     return c
 
